@@ -1121,6 +1121,10 @@ def gen_tlc2(rng, knobs=None):
             sp = rng.choice([[5, 0], [20, 10], [1, 0]]) if fragmented else spec(rng, big=False)
             if kind == 'rr':
                 prog.append(['rr', R, sp, {'mode': 'later'}])
+            elif kind == 'channel':
+                # (as in gen_tlc: the responder side has a publisher and a subscriber; the requester side has a publisher iff HasPub)
+                haspub = bool(b.get('haspub'))
+                prog.append(['channel', R, sp, args[0], {'src': 'scripted', 'pub': True, 'sub': True}, haspub, {'src': 'scripted'} if haspub else None, True])
             else:
                 pol = {'src': 'generator', 'items': [elem()], 'complete_on_last': True} if d.get('lib') else {'src': 'scripted'}
                 prog.append(['stream', R, sp, args[0], pol, True])
